@@ -281,6 +281,13 @@ def schema():
         except Exception as e:
             print(f"[selftest] schema {os.path.basename(f)}: INVALID {e}")
             bad += 1
+    try:
+        jsonschema.validate(json.load(open(os.path.join(VERIF, "MANIFEST.json"))),
+                            json.load(open("/root/.vp/MANIFEST.schema.json")))
+        print("[selftest] schema MANIFEST.json: ok")
+    except Exception as e:
+        print(f"[selftest] schema MANIFEST.json: INVALID {str(e)[:300]}")
+        bad += 1
     return 1 if bad else 0
 
 
